@@ -464,11 +464,14 @@ def cli_shard(args):
     agg = Agg()
     os.makedirs(common.SCRATCH, exist_ok=True)
     for i in range(n):
-        mode = rng.choice(["default", "y", "m", "o", "oy"])
+        mode = rng.choice(["default", "y", "m", "o", "oy", "my", "my"])
         if mode in ("default", "o"):
             v = gen_value(rng, "json")
         elif mode in ("y", "oy"):
             v = [gen_value(rng, "json") for _ in range(rng.randint(1, 3))]
+        elif mode == "my":
+            # one YAML stream per file: several files, several documents each (also none)
+            v = {k: [gen_value(rng, "json") for _ in range(rng.randint(0, 3))] for k in rng.sample(["a", "b.json", "c_d", "e-f", "g h"], rng.randint(2, 4))}
         else:
             v = {k: gen_value(rng, "json") for k in rng.sample(["a", "b.json", "c_d", "e-f", "g h"], rng.randint(1, 3))}
         src = fancy(v, rng)
@@ -477,14 +480,14 @@ def cli_shard(args):
         d = tempfile.mkdtemp(dir=common.SCRATCH)
         try:
             ofile = os.path.join(d, "out.json")
-            argv = {"default": [], "y": ["-y"], "m": ["-m", d], "o": ["-o", ofile], "oy": ["-y", "-o", ofile]}[mode] + ["-"]
+            argv = {"default": [], "y": ["-y"], "m": ["-m", d], "o": ["-o", ofile], "oy": ["-y", "-o", ofile], "my": ["-m", d, "-y"]}[mode] + ["-"]
             # the documents land in files that may already exist (an earlier, longer or shorter output)
             existing = rng.choice([None, None, b"", b"{}\n", b"[\n" + b"   1,\n" * 3000 + b"   1\n]\n", b"x" * 100000])
             if existing is not None:
                 if mode in ("o", "oy"):
                     with open(ofile, "wb") as f:
                         f.write(existing)
-                elif mode == "m":
+                elif mode in ("m", "my"):
                     for k_ in list(v)[: rng.randint(1, len(v))]:
                         with open(os.path.join(d, k_), "wb") as f:
                             f.write(existing)
@@ -506,6 +509,25 @@ def cli_shard(args):
             docs = []
             if mode in ("default", "o"):
                 docs = [(out, v)]
+            elif mode == "my":
+                bad_my = None
+                for k, xs in v.items():
+                    with open(os.path.join(d, k), encoding="utf-8", errors="replace") as f:
+                        text = f.read()
+                    if not xs:
+                        if text.strip() != "":
+                            bad_my = (k, "empty stream prints something")
+                        continue
+                    parts = text.split("---\n")
+                    if parts[0] != "" or not text.endswith("...\n") or len(parts) - 1 != len(xs):
+                        bad_my = (k, "framing / number of documents")
+                        break
+                    body = parts[1:]
+                    body[-1] = body[-1][:-len("...\n")]
+                    docs.extend(zip(body, xs))
+                if bad_my:
+                    agg.violation({"kind": "multi_yaml_stream_file", "what": bad_my[1]}, {"src": src[:500], "file": bad_my[0]}, replay)
+                    continue
             elif mode in ("y", "oy"):
                 parts = out.split("---\n")
                 if parts[0] != "" or not out.endswith("...\n"):
@@ -562,7 +584,7 @@ def run(tier, seed):
             "through 15 emitters; decoded by an own strict RFC 8259 parser (sorted keys, no duplicates, no raw "
             "controls) + Python json, ast.literal_eval, tomllib, an own reader of the emitted YAML subset + PyYAML, "
             "and round trips through std.parseJson/parseYaml; exhaustive over U+0000..U+02FF and boundary code points "
-            "(as value, key, first/last char) and over a list of sensitive plain keys; CLI default / -y / -m / -o / -y -o outputs, also into files that already exist (empty, shorter, longer); "
+            "(as value, key, first/last char) and over a list of sensitive plain keys; CLI default / -y / -m / -m -y / -o / -y -o outputs, also into files that already exist (empty, shorter, longer); "
             "history objects (genrmkey: inheritance chains with std.objectRemoveKey of the same key applied repeatedly, "
             "shared sub-objects, prior observation) through every emitter against the layer-deletion model's visible fields. "
             "distinct_nontrivial = distinct (emitter, value) pairs whose document was decoded and compared.")
